@@ -585,6 +585,10 @@ def run(repo: Repo, rep: Report, tier: str) -> None:
                   "no early `return False` for an IRConst producer: a constant marked as a coordinate gets a combinator as soon as something else reads it, and readers that "
                   "need a literal (an inlined entity condition) lose it", hlc.loc())
 
+    # ---------------- R20 --------------------------------------------------------------
+    _borrow10b(repo, rep, "C12", "C12-R10", "C10-R20", "CSE makes one node feed the readers of all the expressions it merged: the fan-out it creates is separated from the differing "
+               "same-named inputs of those readers like any other shared source", floor=2)
+
     # ---------------- R19 --------------------------------------------------------------
     from .shared import zero_is_a_value as _zero_v
     _zero_v(repo, rep, "C10-R19")
